@@ -49,6 +49,7 @@ type Params struct {
 	TimeoutMs     int       `json:"timeout_ms"`
 	HeadVariant   int       `json:"head_variant"`    // CONNECT request head: 0 plain, 1 HTTP/1.0, 2 Connection: close, 3 Content-Length: 5, 4 Proxy-Connection: keep-alive, 5 Expect + TE headers
 	BodyObs       bool      `json:"body_obs"`        // upgrade: through the proxy instance whose transport records the reads of the 101 body
+	SocksAtyp     int       `json:"socks_atyp"`      // address type of the bound address in the scripted SOCKS5 reply: 0/1 IPv4, 3 name, 4 IPv6
 	ViaProxy      bool      `json:"via_proxy"`       // upgrade: the request goes through a scripted upstream HTTP proxy
 	ReadTimeoutMs int       `json:"read_timeout_ms"` // >0: through the proxy instance configured with this ReadTimeout
 }
@@ -105,6 +106,7 @@ type scenario struct {
 	bar        [2]chan struct{}
 	deadline   time.Time
 	farAddr    string
+	socksReply []byte // what the scripted SOCKS5 server sent before the tunnel
 }
 
 func genPayload(seed uint64, d int, n int) []byte {
@@ -638,7 +640,19 @@ func (sc *scenario) runFar(l net.Listener, tlsCfg *tls.Config, wg *sync.WaitGrou
 		}
 		sc.farPre = n
 		sc.farHead = 2
-		replyHead = []byte{5, 0, 0, 1, 0, 0, 0, 0, 0, 0}
+		switch sc.SocksAtyp {
+		case 3:
+			name := make([]byte, sc.Seed%41) // 0..40 bytes
+			for i := range name {
+				name[i] = byte('a' + (int(sc.Seed)+i*7)%26)
+			}
+			replyHead = append(append([]byte{5, 0, 0, 3, byte(len(name))}, name...), 0x1f, 0x90)
+		case 4:
+			replyHead = append(append([]byte{5, 0, 0, 4}, make([]byte, 16)...), 0, 80)
+		default:
+			replyHead = []byte{5, 0, 0, 1, 0, 0, 0, 0, 0, 0}
+		}
+		sc.socksReply = append([]byte{5, 0}, replyHead...)
 	}
 	sc.farHead += len(replyHead)
 	// the reply head and the banner leave in one segment
